@@ -252,6 +252,7 @@ def _chain(R, unit, only):
                 p = scratch.fresh()
                 shutil.copy(base, p)
                 try:
+                    clr_first = cooler.Cooler(p)          # opened BEFORE the history: its cached names are stale by the time it is used
                     clr = cooler.Cooler(p)
                     # replay the history on the same object
                     for dm in _replay_maps(names0, hist):
@@ -260,8 +261,13 @@ def _chain(R, unit, only):
                         R.mismatch("chain-replay-names", inner, f"got={list(clr.chromnames)} want={cur}")
                         continue
                     bs, bo = snapshot(p), observe(clr)
-                    cooler.rename_chroms(clr, dict(d))
-                    check_after(R, inner, p, clr, bs, bo, cur, want)
+                    # every other chain: the last renaming goes through the object that was opened before the history was applied
+                    # through another object (two handles on one file); 'immediately on the same object' is about the object given
+                    target = clr_first if (hist and nstate % 2) else clr
+                    if target is clr_first:
+                        R.cls("chain:through-an-object-opened-earlier")
+                    cooler.rename_chroms(target, dict(d))
+                    check_after(R, inner, p, target, bs, bo, cur, want)
                 except Exception as e:
                     R.mismatch("chain-raises:" + type(e).__name__, inner, f"{e!s:.200}")
                 finally:
